@@ -775,3 +775,51 @@ theorem Program_new_nl (fl : Flags) (cls : CharClass) (o : Orders) (stmts : List
               · exact Or.inr (Or.inl ⟨e, by unfold step1Of; rw [hs1']; exact he, hr⟩)
               · exact Or.inr (Or.inr h3)
           · simp at h
+
+/-! ### the dependency relation, executable (used by the driver to judge the loops the real code reports) -/
+
+def dependsOnB (stmts : List Stmt) (u v : String) : Bool :=
+  (step1Of stmts).constantsRaw.any (fun p => p.1 == v && (refs p.2).contains u) ||
+  (step1Of stmts).assignments.any (fun p => p.1 == v && (refs p.2).contains u) ||
+  y86FixedFunctions.any (fun f => (match f.outWire with | some (o, _) => o == v | none => false) && (f.inWires.map (·.1)).contains u)
+
+theorem dependsOnB_iff (stmts : List Stmt) (u v : String) : dependsOnB stmts u v = true ↔ DependsOn stmts u v := by
+  unfold dependsOnB DependsOn
+  simp only [Bool.or_eq_true, List.any_eq_true, Bool.and_eq_true, beq_iff_eq, List.contains_eq_mem, decide_eq_true_eq]
+  constructor
+  · rintro ((⟨p, hp, h1, h2⟩ | ⟨p, hp, h1, h2⟩) | ⟨f, hf, h1, h2⟩)
+    · exact Or.inl ⟨p.2, by rw [← h1]; exact hp, h2⟩
+    · exact Or.inr (Or.inl ⟨p.2, by rw [← h1]; exact hp, h2⟩)
+    · refine Or.inr (Or.inr ⟨f, hf, ?_, h2⟩)
+      cases hw : f.outWire with
+      | none => rw [hw] at h1; cases h1
+      | some ow => rw [hw] at h1; exact ⟨ow.2, by simp only at h1; rw [← beq_iff_eq.mp h1]⟩
+  · rintro (⟨e, he, hr⟩ | ⟨e, he, hr⟩ | ⟨f, hf, ⟨w, hw⟩, hr⟩)
+    · exact Or.inl (Or.inl ⟨(v, e), he, rfl, hr⟩)
+    · exact Or.inl (Or.inr ⟨(v, e), he, rfl, hr⟩)
+    · exact Or.inr ⟨f, hf, by rw [hw]; simp, hr⟩
+
+/-- the executable form of `RelCycle (DependsOn stmts)` -/
+def relPathB (stmts : List Stmt) : List String → Bool
+  | [] => true
+  | [_] => true
+  | a :: b :: t => dependsOnB stmts a b && relPathB stmts (b :: t)
+
+def loopRealB (stmts : List Stmt) (c : List String) : Bool :=
+  match c with
+  | [] => false
+  | h :: _ => relPathB stmts c && dependsOnB stmts (c.getLast!) h
+
+theorem loopRealB_iff (stmts : List Stmt) (c : List String) : loopRealB stmts c = true ↔ RelCycle (DependsOn stmts) c := by
+  have hp : ∀ c : List String, relPathB stmts c = true ↔ RelPath (DependsOn stmts) c := by
+    intro c
+    induction c with
+    | nil => simp [relPathB, RelPath]
+    | cons a t ih =>
+      cases t with
+      | nil => simp [relPathB, RelPath]
+      | cons b t' =>
+        simp only [relPathB, RelPath, Bool.and_eq_true, dependsOnB_iff, ih]
+  cases c with
+  | nil => simp [loopRealB, RelCycle]
+  | cons x t => simp only [loopRealB, RelCycle, Bool.and_eq_true, hp, dependsOnB_iff]
